@@ -234,6 +234,17 @@ def gen_config(rng: random.Random, *, rl_prob=0.25, kinds=None, loss_kinds=None,
     return cfg
 
 
+def make_scripted_convergence(cfg, rng: random.Random, n_values=None):
+    """Losses dictated through the model (seam S7) so that the convergence stop is actually reached."""
+    cfg["model"] = {"kind": "scripted", "D": cfg["model"]["D"], "extreme": 0.0}
+    cfg["loss"] = {"cls": "minkowski", "opts": {"p": 1}}
+    cfg["sim_length"] = None
+    cfg["convergence_precision"] = rng.choice([0, 1, 3])
+    cfg["script"] = [rng.choice([3.0, 1.0, 0.2, 0.04, 1e-5, 0.0]) for _ in range(n_values or rng.randint(3, 30))]
+    cfg["script_per"] = 1
+    return cfg
+
+
 BASE_ENV = {"n_jobs": 1, "verbose": False, "folder": False, "ctor_seed": 0, "ambient": 0, "clock_jumps": {},
             "sched": {"mode": "random", "seed": 0, "p_line": 0.0}, "trace_lines": False}
 
@@ -617,10 +628,84 @@ class CalSim:
         pass
 
     def do_op(self, op):
+        from black_it.calibrator import Calibrator
         kind = op[0]
         if kind == "calibrate":
             return self.do_calibrate(op[1])
+        if kind == "calibrate_crash":
+            # process death inside the batch loop: the k-th model call from now on never returns
+            _, n, k = op
+            key = ("model", self.n_model + k)
+            f = {"kind": "crash", "seam": "model", "at": self.n_model + k}
+            self.fault_idx[key] = f
+            try:
+                r = self.do_calibrate(n)
+                r["crashed"] = False          # the calibration ended before reaching the crash point
+            except SimCrash:
+                r = {"op": op, "exc": ("SimCrash", ""), "ret": None, "crashed": True, "snap": None}
+                self.stats["crash@batch"] += 1
+                self.log.add("crash", self.n_model)
+                self.abandon()
+            self.fault_idx.pop(key, None)
+            return r
+        if kind == "crash":
+            self.stats["crash@between-batches"] += 1
+            self.abandon()
+            return {"op": op, "exc": None, "ret": None, "snap": None}
+        if kind == "restore":
+            r = {"op": op, "exc": None, "ret": None, "snap": None}
+            self.abandon()
+            try:
+                self.cal = Calibrator.restore_from_checkpoint(self.folder if len(op) < 2 else self.named_folder(op[1]), model=self.model)
+                r["snap"] = self.snapshot()
+                self.stats["restore"] += 1
+            except Exception as e:  # noqa: BLE001
+                r["exc"] = (type(e).__name__, str(e)[:300])
+                r["fatal"] = True
+            self.log.add("restore", r["exc"])
+            return r
+        if kind == "checkpoint":
+            r = {"op": op, "exc": None, "ret": None, "snap": self.snapshot()}
+            try:
+                self.cal.create_checkpoint(self.named_folder(op[1]))
+            except Exception as e:  # noqa: BLE001
+                r["exc"] = (type(e).__name__, str(e)[:300])
+            return r
+        if kind == "set_samplers":
+            cs = random.Random(derive_seed("set_samplers", len(self.op_results)))
+            self.cal.set_samplers([make_sampler(sp, cs.randrange(2 ** 31)) for sp in op[1]])
+            return {"op": op, "exc": None, "ret": None, "snap": self.snapshot()}
+        if kind == "set_scheduler":
+            from black_it.schedulers.round_robin import RoundRobinScheduler
+            cs = random.Random(derive_seed("set_scheduler", len(self.op_results)))
+            samplers = [make_sampler(sp, cs.randrange(2 ** 31)) for sp in op[1]["lineup"]]
+            if op[1].get("kind", "rr") == "rl":
+                sch = make_scheduler(op[1], samplers, cs.randrange(2 ** 31))
+            else:
+                sch = RoundRobinScheduler(samplers)
+            self.cal.set_scheduler(sch)
+            return {"op": op, "exc": None, "ret": None, "snap": self.snapshot()}
         raise ValueError(op)
+
+    def named_folder(self, name):
+        return self.new_folder(f"ckpt-{name}")
+
+    def abandon(self):
+        """The process dies: every live reference is dropped, ambient state is perturbed; only the folder survives."""
+        if self.baton is not None:
+            # threads of the dead process die with it
+            self.baton.shutdown()
+            self.seams.undo()
+            self.seams = Seams()
+            keep = (self.env, self.scratch)
+            self.install()
+            self.env, self.scratch = keep
+        self.cal = None
+        self.cur = None
+        self.prefix_digest = None
+        import gc
+        gc.collect()
+        np.random.seed((self.env["ambient"] + 17 * (len(self.op_results) + 1)) % (2 ** 32))  # noqa: NPY002
 
     def digest(self):
         self.log.add("stdout", self.sink.n, self.sink.lines)
@@ -735,42 +820,42 @@ def check_history(sim: "CalSim", pristine_loss=None, ret=None):
     for ordinal, b in enumerate(done):
         h, bs = b.hist_len, len(b.returned)
         if h != rows:
-            out.append(("rows-unaccounted", b.cls, f"batch starting at row {h} but {rows} rows are accounted for by earlier batches"))
+            out.append(("rows-unaccounted", "calibrator", f"batch starting at row {h} but {rows} rows are accounted for by earlier batches"))
             return out
         sl = slice(h, h + bs)
         if cal.params_samp[sl].tobytes() != b.returned.tobytes():
-            out.append(("params-not-proposed", b.cls, f"rows {h}..{h + bs - 1} of params_samp differ from what {b.cls}.sample() returned: "
+            out.append(("params-not-proposed", "calibrator", f"rows {h}..{h + bs - 1} of params_samp differ from what {b.cls}.sample() returned: "
                                                       f"{cal.params_samp[sl].tolist()} vs {b.returned.tolist()}"))
         if len(b.calls) != bs * E:
-            out.append(("model-call-count", b.cls, f"batch of {bs} points with ensemble {E} made {len(b.calls)} model calls"))
+            out.append(("model-call-count", "calibrator", f"batch of {bs} points with ensemble {E} made {len(b.calls)} model calls"))
         else:
             for r in range(bs):
                 for e in range(E):
                     idx, theta, N, seed, result = b.calls[r * E + e]  # noqa: N806
                     if theta is None or np.asarray(theta).tobytes() != cal.params_samp[h + r].tobytes():
-                        out.append(("model-called-on-other-vector", b.cls,
+                        out.append(("model-called-on-other-vector", "calibrator",
                                     f"row {h + r} member {e}: model called with {np.asarray(theta).tolist()}, recorded parameters {cal.params_samp[h + r].tolist()}"))
                         break
                     if N != cal.N:
-                        out.append(("sim-length", b.cls, f"model called with N={N}, configured simulation length {cal.N}"))
+                        out.append(("sim-length", "calibrator", f"model called with N={N}, configured simulation length {cal.N}"))
                         break
                     if result is None or np.asarray(result).tobytes() != cal.series_samp[h + r, e].tobytes():
-                        out.append(("series-not-model-output", b.cls,
+                        out.append(("series-not-model-output", "calibrator",
                                     f"series_samp[{h + r}, {e}] is not the output of the model run on that row's parameters with seed {seed} (task {idx})"))
                         break
                 else:
                     continue
                 break
         if len(b.losses) != bs:
-            out.append(("loss-call-count", b.cls, f"batch of {bs} points made {len(b.losses)} loss evaluations"))
+            out.append(("loss-call-count", "calibrator", f"batch of {bs} points made {len(b.losses)} loss evaluations"))
         else:
             for r in range(bs):
                 din, val = b.losses[r]
                 if din != arr_digest(cal.series_samp[h + r]):
-                    out.append(("loss-on-other-series", b.cls, f"the loss recorded for row {h + r} was computed on series that are not series_samp[{h + r}]"))
+                    out.append(("loss-on-other-series", "calibrator", f"the loss recorded for row {h + r} was computed on series that are not series_samp[{h + r}]"))
                     break
                 if not _feq(val, cal.losses_samp[h + r]):
-                    out.append(("loss-not-recorded", b.cls, f"losses_samp[{h + r}] = {cal.losses_samp[h + r]!r} but the loss function returned {val!r} for that row"))
+                    out.append(("loss-not-recorded", "calibrator", f"losses_samp[{h + r}] = {cal.losses_samp[h + r]!r} but the loss function returned {val!r} for that row"))
                     break
                 if pristine_loss is not None:
                     try:
@@ -784,10 +869,10 @@ def check_history(sim: "CalSim", pristine_loss=None, ret=None):
                                     f"losses_samp[{h + r}] = {cal.losses_samp[h + r]!r}; a pristine copy of the loss gives {again!r} on exactly those series (stateful loss?)"))
                         break
         if not (cal.batch_num_samp[sl] == ordinal).all():
-            out.append(("batch-label", b.cls, f"rows {h}..{h + bs - 1} (batch #{ordinal} of the calibration) carry batch labels {cal.batch_num_samp[sl].tolist()}"))
+            out.append(("batch-label", "calibrator", f"rows {h}..{h + bs - 1} (batch #{ordinal} of the calibration) carry batch labels {cal.batch_num_samp[sl].tolist()}"))
         want = cal.samplers_id_table.get(b.cls)
         if not (cal.method_samp[sl] == want).all():
-            out.append(("sampler-label", b.cls, f"rows {h}..{h + bs - 1} produced by {b.cls} (id {want}) carry sampler labels {cal.method_samp[sl].tolist()}"))
+            out.append(("sampler-label", "calibrator", f"rows {h}..{h + bs - 1} produced by {b.cls} (id {want}) carry sampler labels {cal.method_samp[sl].tolist()}"))
         rows += bs
     if rows != n:
         out.append(("rows-unaccounted", "tail", f"history has {n} rows, recorded completed batches account for {rows}"))
